@@ -58,6 +58,10 @@ def _corpus(rng, tier, dense):
     scripts = c12.small_scripts(rng.fork("stream"), tier)
     cases += [c12.fmt(v, sc) for v, sc in scripts][::(3 if q else 1)]
     # over-claiming readers, first thing and after data, every variant
+    # Display under formatter flags (width, precision, fill, alignment, zero padding)
+    for v in VNAMES:
+        for _ in range(2):
+            cases.append("displayf %s %s" % (v, hx(suites.plausible_bin(rng, v))))
     for v in VNAMES:
         cases.append("stream %s lie 1" % v)
         cases.append("stream %s d %s lie 1" % (v, hx(bytes(range(60)))))
@@ -134,6 +138,20 @@ def run(ctx):
     ctx.suites["TOTAL"] = st
     for c, a, b in list(zip(cases, out_dbg, out_uns))[:3]:
         ctx.samples.append({"suite": "TOTAL", "case": c[:200], "impl": "debug: %s ; unsafe-release: %s" % (a[:100], b[:100])})
+    # re-entrancy: a reader that itself calls hash_stream / hash_file on the same thread while it is being hashed (no model side)
+    nc = c12.nested_cases(ctx.tier)
+    for hbx, label in ((hb_dbg, "default"), (hb_uns, "unsafe-release")):
+        no = core.run_cases(hbx, nc, tag="c17n")
+        no, _ = isolate(hbx, nc, no)
+        for c, o in zip(nc, no):
+            ctx.evaluations += 1
+            ctx.nontrivial.add((label, c))
+            w = c12.nested_pred(c, o)
+            if o.startswith("PANIC") or o.startswith("CRASH") or w:
+                ctx.violations.append({"suite": "NESTED", "case": c, "impl": o[:300], "config": label,
+                                       "what": "a well-behaved reader that hashes other streams from inside read(): " +
+                                               ("the `%s` build panicked / crashed" % label if not o.startswith("outer") else w)})
+    st["nested_cases"] = len(nc)
     # the debug-assertion builds of the other cfg branches (table hex codecs, low-memory buckets, naive distances, static SSE2):
     # no panic, no crash, and the model's answer, on the same corpus
     others = ["nosimd", "embedded", "lowmem", "decq", "decmin", "static-sse2"]
